@@ -96,13 +96,13 @@ type c13Stream struct {
 	acks   int
 }
 
-func (*c13Stream) SendHeader(metadata.MD) error   { return nil }
-func (*c13Stream) SetHeader(metadata.MD) error    { return nil }
-func (*c13Stream) SetTrailer(metadata.MD)         {}
-func (*c13Stream) RecvMsg(any) error              { return nil }
-func (*c13Stream) SendMsg(any) error              { return nil }
-func (s *c13Stream) Context() context.Context     { return s.ctx }
-func (s *c13Stream) Send(*proto.Ack) error        { s.mu.Lock(); s.acks++; s.mu.Unlock(); return nil }
+func (*c13Stream) SendHeader(metadata.MD) error { return nil }
+func (*c13Stream) SetHeader(metadata.MD) error  { return nil }
+func (*c13Stream) SetTrailer(metadata.MD)       {}
+func (*c13Stream) RecvMsg(any) error            { return nil }
+func (*c13Stream) SendMsg(any) error            { return nil }
+func (s *c13Stream) Context() context.Context   { return s.ctx }
+func (s *c13Stream) Send(*proto.Ack) error      { s.mu.Lock(); s.acks++; s.mu.Unlock(); return nil }
 func (s *c13Stream) Recv() (*proto.Append, error) {
 	select {
 	case a := <-s.in:
@@ -132,6 +132,9 @@ type leaderEnv struct {
 
 var c13EnvCounter int
 
+// the DB of the next leaderEnv lives in memory (legs that never restart the controller: no fsync in UpdateTerm)
+var leaderEnvInMemory bool
+
 func newLeaderEnv(o *hx.Out, shard int64, tag string) *leaderEnv {
 	c13EnvCounter++
 	base := os.Getenv("VERIF_TMP")
@@ -141,7 +144,7 @@ func newLeaderEnv(o *hx.Out, shard int64, tag string) *leaderEnv {
 	l := &leaderEnv{o: o, tag: tag, shard: shard, failed: map[string]bool{}}
 	l.dir = filepath.Join(base, fmt.Sprintf("h_db13_%d_%d", os.Getpid(), c13EnvCounter))
 	var err error
-	l.kvf, err = kv.NewPebbleKVFactory(&kv.FactoryOptions{DataDir: filepath.Join(l.dir, "db"), CacheSizeMB: 1, InMemory: false})
+	l.kvf, err = kv.NewPebbleKVFactory(&kv.FactoryOptions{DataDir: filepath.Join(l.dir, "db"), CacheSizeMB: 1, InMemory: leaderEnvInMemory})
 	hx.Must(err)
 	l.walf = wal.NewWalFactory(&wal.FactoryOptions{BaseWalDir: filepath.Join(l.dir, "wal"), Retention: time.Hour, SegmentSize: 1 << 20, SyncData: false})
 	return l
